@@ -170,7 +170,7 @@ ECO_NAMES = ["requests[security]", "Zope.Interface[Test_Extra]", "[Foo_Bar]x]", 
              "xn--bcher-kva.example/mod/pkg", "XN--BCHER-KVA.Example/a", "xn--/a", "b\u00fccher.example/mod/pkg", "xn--nxasmq6b.com/x", "host:8080/a/b", "user@host/a/b",
              "127.0.0.1/a", "[::1]/a", "example.com./a", "EXAMPLE.com/A/b", "www.example.com/a", "example.com//a", "localhost/a",
              "name.git", "name.GIT", "lib.so.6", "pkg:npm/foo", "pkg%3Anpm", "file:///x", "C:\\x", "name ", " name", "na me", "name\t", "Name.Exe"]
-CLS_TYPE = ["t", "cargo", "gem", "golang", "maven", "npm", "nuget", "pypi", "deb"]
+CLS_TYPE = ["t", "cargo", "gem", "golang", "maven", "npm", "nuget", "pypi", "deb", "carg0", "rnaven", "g3m"]
 CLS_NS = [[], ["acme"], ["@scope"], ["github.com", "phylum-dev"], ["%40scope%2Fevil"], ["\u00dcn\u00ef", "\u01c5" + KEL], ["a:b c&d=e"],
           ["x" * 30], ["g"], ["org.apache.commons", "sub+group"], ["example.org", "user", "repo.git", "cmd"],
           ["example.org", "repo.git", "..", "..", "etc"], [".", "a.git", "."]]
